@@ -6,6 +6,11 @@
 // manipulations of them, crossed with key-set shapes and allow-lists. The oracle is a provenance ledger: an
 // acceptance is legal only if the claims handed back are a payload the harness itself signed with a key that the
 // verifier's trust set legitimately selects (see ref.go).
+//
+// Beyond single presentations: part R (rotation.go) follows one remote key set across a key rotation, part F
+// (faults.go) across histories of rotations and failing JWKS downloads; the JWT-profile verifier is also used as a kept
+// object that has verified another client's assertion before; the RP verifier is also taken from a relying party built
+// by rp.NewRelyingPartyOIDC (allow-list by verifier option or from the discovery document).
 package main
 
 import (
@@ -70,6 +75,11 @@ func legalFor(c *caseCtx, v int, kid, alg string, signer crypto.PublicKey) (lega
 		for _, e := range c.otherS {
 			if samePub(e.K.Public(), signer) {
 				return false, "", "key-of-the-subject-client-not-of-the-issuer"
+			}
+		}
+		for _, e := range c.predS {
+			if samePub(e.K.Public(), signer) {
+				return false, "", "key-of-an-earlier-issuer-verified-by-the-same-verifier-object"
 			}
 		}
 		return false, "", "untrusted-key"
@@ -162,6 +172,20 @@ func runCase(run *ev.Run, w *worker, v int, i int, onlyOp string) {
 	if !perClient(v) && r.IntN(5) >= 2 {
 		c.allowIdx = 1 + r.IntN(len(allowLists)-1)
 	}
+	if v == vRemote {
+		// construction dimension: where the application gets its ID token verifier from
+		c.route = "direct"
+		switch x := r.IntN(6); x {
+		case 4:
+			c.route = "relying-party+verifier-opts"
+		case 5:
+			c.route = "relying-party+discovery-algs"
+			c.routeOrder = r.IntN(2)
+			if c.allowIdx == 0 { // the announced list IS the allow-list on this route
+				c.allowIdx = 1 + r.IntN(len(allowLists)-1)
+			}
+		}
+	}
 	c.A = allowLists[c.allowIdx]
 	c.S = genKeySet(r, 4, perClient(v), famsAllowed(c.A))
 	c.ksMode = "default"
@@ -207,7 +231,8 @@ func runCase(run *ev.Run, w *worker, v int, i int, onlyOp string) {
 		default:
 			cacheMode, c.cached = "warm-other", genKeySet(r, 3, false, famsAllowed(c.A))
 		}
-		skipRemote = r.IntN(4) == 0
+		skipRemote = r.IntN(4) == 0 && c.route == "direct" // rp.SkipRemoteCheck cannot be handed to a relying party
+		cacheMode += "/" + c.route
 	}
 	marker := fmt.Sprintf("m%d-%d", v, i)
 	now := time.Now()
@@ -230,6 +255,19 @@ func runCase(run *ev.Run, w *worker, v int, i int, onlyOp string) {
 			c.sub, c.subMode = fmt.Sprintf("client-%d-%d-unknown", v, i), "unknown"
 		}
 	}
+	c.vlife = "per-call"
+	if v == vAssertion {
+		switch r.IntN(4) {
+		case 2:
+			c.vlife = "per-case"
+		case 3:
+			c.vlife = "per-worker"
+		}
+		if c.vlife != "per-call" {
+			c.pred = fmt.Sprintf("client-%d-%d-pred", v, i)
+			c.predS = genEarlierIssuerKeys(r, c.S, c.otherS)
+		}
+	}
 	c.P = mkPayloadSub(c.kind, marker, c.who, c.sub, now, false)
 	if v == vAssertion {
 		c.Evil = mkPayloadSub(c.kind, "evil-"+marker, c.who, c.sub, now, false)
@@ -241,7 +279,27 @@ func runCase(run *ev.Run, w *worker, v int, i int, onlyOp string) {
 	var signer *keys.Key
 	kid := ""
 	c.signerOf = "unregistered"
-	if c.subMode == "other-client" && r.IntN(5) < 2 {
+	if c.pred != "" && r.IntN(4) == 0 {
+		// signed with a key of the client whose assertion the same verifier object has verified just before (never a key
+		// of the issuer), under that key's own kid - which may be a kid string the issuer uses for another key - or
+		// under a kid of the issuer
+		c.signerOf = "earlier-issuer"
+		e := c.predS[r.IntN(len(c.predS))]
+		signer = e.K
+		switch x := r.IntN(10); {
+		case x < 6:
+			kid, c.kidMode = e.Kid, "earlier-issuer-key's-own"
+			for _, a := range c.S {
+				if a.Kid == kid {
+					c.kidMode = "same-kid-registered-for-both-clients"
+				}
+			}
+		case x < 9:
+			kid, c.kidMode = c.S[r.IntN(len(c.S))].Kid, "issuer-key's"
+		default:
+			kid, c.kidMode = "", "absent"
+		}
+	} else if c.subMode == "other-client" && r.IntN(5) < 2 {
 		// signed with a key registered for the client named in sub (not for the issuer), under that key's own kid -
 		// which may be a kid string the issuer uses for a different key - or under a kid of the issuer
 		c.signerOf = "sub-client"
@@ -338,6 +396,9 @@ func runCase(run *ev.Run, w *worker, v int, i int, onlyOp string) {
 	c.base = c.sign(signer, alg, kid, c.P, nil)
 	useRaw := r.IntN(2) == 0
 	present := w.prepare(c, useRaw, skipRemote)
+	if c.pred != "" && onlyOp == "" {
+		presentEarlierIssuer(run, c, present, marker, now, caseID)
+	}
 
 	// the genuine token plus a few manipulations of it
 	list := []*presented{{Op: "genuine", Token: c.base.Token, Bound: c.base, NSig: 1, EffKid: kid}}
@@ -388,6 +449,13 @@ func runCase(run *ev.Run, w *worker, v int, i int, onlyOp string) {
 				wit["subject_check"] = map[bool]string{true: "op.SubjectCheck(func(*oidc.JWTTokenRequest) error { return nil })", false: "default SubjectIsIssuer"}[c.permissive]
 				wit["iss"], wit["sub"], wit["signed_by_key_of"] = c.who, c.sub, c.signerOf
 				wit["keys_registered_for_sub_client"] = describeSet(c.otherS)
+				wit["verifier_object"] = vlifeText(c.vlife)
+				if c.pred != "" {
+					wit["earlier_issuer_verified_by_the_same_object"], wit["keys_registered_for_earlier_issuer"] = c.pred, describeSet(c.predS)
+				}
+			}
+			if c.route != "" && c.route != "direct" {
+				wit["verifier_from"] = routeText(c)
 			}
 			if c.cached != nil {
 				wit["cached_key_set"] = describeSet(c.cached)
@@ -424,8 +492,16 @@ func runCase(run *ev.Run, w *worker, v int, i int, onlyOp string) {
 			run.Count("rejected:"+vname, opKey+" -> "+ec)
 			if pr.Op == "genuine" {
 				if mustAcceptFor(c, v, kid, alg, signer.Public()) {
-					run.Violation("C02:"+vname+":rejected-genuine", caseID,
-						"an untouched genuinely signed token with a unique eligible published key and an allowed algorithm was rejected: "+err2str(out.err), witness())
+					key, extra := "C02:"+vname+":rejected-genuine", ""
+					if c.pred != "" {
+						key += ":verifier-object-reused"
+						extra = " (the verifier object had verified the assertion of another client before)"
+					}
+					if c.route != "" && c.route != "direct" {
+						key += ":" + c.route
+					}
+					run.Violation(key, caseID,
+						"an untouched genuinely signed token with a unique eligible published key and an allowed algorithm was rejected"+extra+": "+err2str(out.err), witness())
 				} else {
 					_, _, reason := legalFor(c, v, kid, alg, signer.Public())
 					if reason == "" {
@@ -437,6 +513,15 @@ func runCase(run *ev.Run, w *worker, v int, i int, onlyOp string) {
 						if c.signedBy != "attacker" && len(c.foreign) > 0 && c.foreign[c.signedBy] != nil && strings.HasPrefix(ec, "ErrSignatureInvalid") {
 							run.Observed("key-of-another-key-set-refused-at-signature:" + vname)
 						}
+					}
+					if c.route == "relying-party+discovery-algs" && c.algMode == "outside-allow-list" && ec == "ErrSignatureUnsupportedAlg" {
+						run.Observed("relying-party:algorithm-outside-the-announced-list-refused")
+					}
+					if c.route == "relying-party+verifier-opts" && c.algMode == "outside-allow-list" && ec == "ErrSignatureUnsupportedAlg" {
+						run.Observed("relying-party:algorithm-outside-the-verifier-option-list-refused")
+					}
+					if v == vAssertion && c.signerOf == "earlier-issuer" && strings.HasPrefix(ec, "ErrSignatureInvalid") && (c.permissive || c.subMode == "iss") {
+						run.Observed("kept-verifier:earlier-issuer's-key-refused-at-signature")
 					}
 					if v == vAssertion {
 						run.Count("subject-dimension:"+vname, subjectDim(c, v)+" kid="+c.kidMode+" -> rejected: "+ec)
@@ -536,6 +621,13 @@ func runCase(run *ev.Run, w *worker, v int, i int, onlyOp string) {
 					run.Observed("storage-keys-kept-when-only-the-other-key-set-is-configured:" + vname)
 				}
 			}
+			if c.route != "" && c.route != "direct" {
+				run.Observed("relying-party:accept-genuine:" + c.route)
+				run.Count("relying-party-route", c.route+" allow-list="+allowName(c.allowIdx)+" -> accepted "+alg)
+			}
+			if c.pred != "" {
+				run.Observed("kept-verifier:accept-genuine-after-earlier-issuer:" + c.vlife)
+			}
 			if v == vAssertion {
 				run.Count("subject-dimension:"+vname, subjectDim(c, v)+" kid="+c.kidMode+" -> accepted")
 				if c.permissive && c.subMode == "other-client" {
@@ -544,6 +636,47 @@ func runCase(run *ev.Run, w *worker, v int, i int, onlyOp string) {
 			}
 		}
 		sampleMaybe(run, vname, pr, out, c)
+	}
+}
+
+// presentEarlierIssuer hands the genuine assertion of another registered client (iss = sub = pred, signed with pred's
+// own key under its own kid, allowed algorithm) to the verifier object the case keeps. It is judged like every other
+// genuine token: it must be accepted and the claims handed back must be the signed payload.
+func presentEarlierIssuer(run *ev.Run, c *caseCtx, present func(string) outcome, marker string, now time.Time, caseID int64) {
+	e := c.predS[0]
+	alg := ""
+	for _, a := range famAlgs(poolOf(e.K).fam) {
+		if allowed(c.A, a) {
+			alg = a
+			break
+		}
+	}
+	if alg == "" {
+		panic("c02: earlier issuer's key has no allowed algorithm")
+	}
+	payload := mkPayloadSub(pkAssertion, "pred-"+marker, c.pred, c.pred, now, false)
+	ent := c.sign(e.K, alg, e.Kid, payload, nil)
+	out := present(ent.Token)
+	run.Eval()
+	wit := map[string]any{"verifier": c.verifier, "verifier_object": vlifeText(c.vlife), "token": ent.Token, "iss": c.pred, "sub": c.pred, "signer": keyName(e.K), "alg": alg, "kid": e.Kid,
+		"keys_registered_for_this_client": describeSet(c.predS), "error": err2str(out.err), "claims_returned": out.m, "case": c.idx}
+	switch {
+	case out.pi != nil && out.pi.InRepo:
+		run.Violation("C02:"+c.verifier+":panic:"+out.pi.Site(), caseID, "verifier panicked: "+out.pi.Value, wit)
+	case out.pi != nil:
+		run.HarnessBug("panic while presenting the earlier issuer's assertion: " + out.pi.Value + " at " + out.pi.Frame)
+	case !out.accepted:
+		run.Count("rejected:"+c.verifier, "earlier-issuer-genuine -> "+errClass(out.err))
+		run.Violation("C02:"+c.verifier+":rejected-genuine:verifier-object-reused", caseID,
+			"a kept verifier object rejected the untouched genuine assertion of a registered client (own key, own kid, allowed algorithm, sub = iss): "+err2str(out.err), wit)
+	default:
+		expM, _ := decodeMap(payload)
+		if !mapsEqual(out.m, expM) {
+			run.Violation("C02:"+c.verifier+":claims-differ", caseID, "the claims handed back are not the payload the accepted signature covers (differing members: "+diffKeys(out.m, expM)+")", wit)
+			return
+		}
+		run.Count("accepted:"+c.verifier, "earlier-issuer-genuine")
+		run.Observed("kept-verifier:earlier-issuer-accepted:" + c.vlife)
 	}
 }
 
@@ -562,7 +695,27 @@ func subjectDim(c *caseCtx, v int) string {
 	if c.permissive {
 		chk = "permissive-SubjectCheck"
 	}
-	return chk + "/sub=" + c.subMode + "/signed-by=" + c.signerOf
+	return chk + "/sub=" + c.subMode + "/signed-by=" + c.signerOf + "/verifier-object=" + c.vlife
+}
+
+func vlifeText(l string) string {
+	switch l {
+	case "per-case":
+		return "one *op.JWTProfileVerifier (op.NewJWTProfileVerifier) kept for all presentations of this case; it verified the earlier issuer's genuine assertion first"
+	case "per-worker":
+		return "one long-lived *op.JWTProfileVerifier (op.NewJWTProfileVerifier) that has verified assertions of many clients; the earlier issuer's genuine assertion immediately before"
+	}
+	return "built for every call (Provider.JWTProfileVerifier / op.NewJWTProfileVerifier)"
+}
+
+func routeText(c *caseCtx) string {
+	switch c.route {
+	case "relying-party+verifier-opts":
+		return "rp.NewRelyingPartyOIDC(..., rp.WithVerifierOpts(rp.WithSupportedSigningAlgorithms(allow-list))).IDTokenVerifier(); discovery announces every algorithm"
+	case "relying-party+discovery-algs":
+		return fmt.Sprintf("rp.NewRelyingPartyOIDC(..., rp.WithSigningAlgsFromDiscovery() as option #%d of 2).IDTokenVerifier(); id_token_signing_alg_values_supported = allow-list", c.routeOrder)
+	}
+	return "rp.NewIDTokenVerifier over rp.NewRemoteKeySet"
 }
 
 func sampleMaybe(run *ev.Run, vname string, pr *presented, out outcome, c *caseCtx) {
@@ -599,7 +752,11 @@ func main() {
 		"distinct = distinct vectors (verifier, operator, variant, key-set shape, allow-list, kid mode, signer published, alg allowed, cache mode, accepted) among presentations that got past ParseToken/claim checks to the signature step; " +
 		"smuggled payloads are the far forged payload or one at small edit distance from the signed one (letter case of values / names / both, one byte changed / appended / removed, same length, whitespace only) in 7 placements; " +
 		"op-access-token and op-id-token-hint additionally run against providers configured with op.WithAccessTokenKeySet / op.WithIDTokenHintKeySet / both (three disjoint key sets: storage, access, hint; signer drawn from any of them or an attacker key); " +
-		"op-jwt-assertion additionally varies the subject check (default / permissive), sub (= iss / other registered client / unknown) and whose key signed; " +
+		"op-jwt-assertion additionally varies the subject check (default / permissive), sub (= iss / other registered client / unknown), whose key signed, and the life time of the verifier OBJECT " +
+		"(built per call / one op.NewJWTProfileVerifier object kept for the case / one long-lived object per worker): a kept object first verifies the genuine assertion of another registered client, and one base token in four is signed with that earlier issuer's key; " +
+		"rp-remote additionally varies where the verifier comes from (rp.NewIDTokenVerifier / the ID token verifier of rp.NewRelyingPartyOIDC with rp.WithVerifierOpts / with rp.WithSigningAlgsFromDiscovery against a discovery document announcing exactly the allow-list); " +
+		"part F: 1000 (thorough 30000) histories over ONE remote key set and verifier (direct, SkipRemoteCheck, relying party): publish / rotate (6 modes) / the JWKS endpoint fails for the next 1-2 downloads in one of 7 ways / recovers, " +
+		"interleaved with 9-16 presentations of tokens by currently published, stored, withdrawn, never published and foreign keys, each judged against the exact record of what every download returned; " +
 		"oidc.FindMatchingKey is enumerated completely over all key sets of <=3 keys x kid in {none,a,b} x use in {sig,enc,none} x {RSA,EC P-256,EC P-384,Ed25519} x 4 token kids x 9 algorithms and sampled for 4-5 keys")
 	run.Assume("acceptance is judged by provenance (the harness' ledger of what it signed), never by string equality with what was serialised",
 		"per-client keys (JWT assertion, request object) are selected by the storage by exact key ID; a client key registered with use=enc is grey there",
@@ -608,6 +765,11 @@ func main() {
 		"a token with kid facing several kid-less candidate keys is grey (DESIGN 6a); an EC key of another curve counts as a candidate for ambiguity only in favour of the library",
 		"remote key set: an acceptance is legal if it is legal for the cached or for the currently served document; must-accept only when both agree",
 		"remote key set after a rotation (part R): once two further downloads have been observed at the JWKS endpoint the first one's result is stored, and only the keys of the document published now are trusted",
+		"op-jwt-assertion, kept verifier objects: what an object verified before changes nothing - the trust set of an assertion is the keys registered for the client named in ITS iss",
+		"rp-remote through a relying party: the allowed list is what rp.WithVerifierOpts(rp.WithSupportedSigningAlgorithms) names, with rp.WithSigningAlgsFromDiscovery what the discovery document announces; the two are never combined in one case",
+		"remote key set under endpoint faults (part F): the key set may go on trusting the document of its last successful download until another download succeeds; a failed download adds no trust; "+
+			"a genuine token of a currently published key must be accepted when the endpoint answers the next download properly, whatever failed before; refusing while the endpoint fails is grey. "+
+			"Between presentations the case waits (goroutine dump) until the download goroutine the key set started for it has ended, so 'stored' is exact; a wait that never ends is inconclusive",
 		"a payload of JSON null is C09's subject and is not generated here")
 	var mand []string
 	for v, n := range verifierNames {
@@ -623,6 +785,17 @@ func main() {
 	}
 	mand = append(mand, "delegated-subject-accepted-under-issuer-key:op-jwt-assertion", "subject-clients-key-refused-at-signature:op-jwt-assertion")
 	mand = append(mand, "rotation:withdrawn-judged", "rotation:published-judged", "rotation:refresh-proven:empty", "rotation:refresh-proven:withdraw-one", "rotation:refresh-proven:disjoint")
+	mand = append(mand, "relying-party:accept-genuine:relying-party+verifier-opts", "relying-party:accept-genuine:relying-party+discovery-algs",
+		"relying-party:algorithm-outside-the-announced-list-refused", "relying-party:algorithm-outside-the-verifier-option-list-refused")
+	mand = append(mand, "kept-verifier:earlier-issuer-accepted:per-case", "kept-verifier:earlier-issuer-accepted:per-worker",
+		"kept-verifier:accept-genuine-after-earlier-issuer:per-case", "kept-verifier:accept-genuine-after-earlier-issuer:per-worker",
+		"kept-verifier:earlier-issuer's-key-refused-at-signature")
+	mand = append(mand, "faults:download-goroutine-identified", "faults:published-key-accepted-by-a-download-after-a-failed-one",
+		"faults:accepted-after-the-first-download-ever-failed", "faults:withdrawn-key-refused-after-a-failed-download-and-a-refresh",
+		"faults:history-completed:direct", "faults:history-completed:direct-skip-remote-check", "faults:history-completed:relying-party")
+	for _, k := range faultKinds {
+		mand = append(mand, "faults:kind:"+k)
+	}
 	mand = append(mand, "FindMatchingKey:enumeration-complete", "FindMatchingKey:ambiguity-seen", "FindMatchingKey:exact-seen", "FindMatchingKey:unique-kidless-seen")
 	run.Mandatory(mand...)
 	initPool()
@@ -631,6 +804,12 @@ func main() {
 	if rc := run.ReplayCase(); rc >= 0 {
 		for _, m := range mand { // a single replayed case cannot observe every scenario
 			run.Observed(m)
+		}
+		if rc >= faultBase {
+			runFaults(run, int(rc-faultBase))
+			run.Distinct("replay-a")
+			run.Distinct("replay-b")
+			run.Finish()
 		}
 		if rc >= rotationBase {
 			runRotation(run, int(rc-rotationBase))
@@ -663,8 +842,17 @@ func main() {
 			run.HarnessBug(fmt.Sprintf("rotation case %d: panic outside a monitored library call: %s at %s", j, pi.Value, pi.Frame))
 		}
 	})
+	tf := time.Now()
+	if probeDownloadGoroutine(run) {
+		ev.Parallel(faultCount(run), 0, func(_ int, j int) {
+			if pi := mon.Catch(func() { runFaults(run, j) }); pi != nil {
+				run.HarnessBug(fmt.Sprintf("fault history %d: panic outside a monitored library call: %s at %s", j, pi.Value, pi.Frame))
+			}
+		})
+	}
 	t1 := time.Now()
 	runFindKey(run)
-	run.Extra("phase_wall_s", map[string]float64{"verifiers+rotation": t1.Sub(t0).Seconds(), "FindMatchingKey": time.Since(t1).Seconds()})
+	run.Extra("fault_histories_goroutine_dumps", map[string]float64{"dumps": float64(dumpN), "seconds": float64(dumpNs) / 1e9})
+	run.Extra("phase_wall_s", map[string]float64{"verifiers+rotation": tf.Sub(t0).Seconds(), "fault-histories": t1.Sub(tf).Seconds(), "FindMatchingKey": time.Since(t1).Seconds()})
 	run.Finish()
 }
